@@ -258,7 +258,7 @@ fn async_time_mirror(cfg: &RunCfg, out: &mut RunOut, sync_ok: &[Option<bool>]) -
     let _guard = rt.enter();
     let ab = abuild(&cfg.specs[0], crate::rng::mix(cfg.order_seed, 0), cfg.permute, crate::rng::mix(cfg.seed, 0xC19A), 20).ok()?;
     out.count("probe.c19.async_runs");
-    let mut ax = AExec { root: ab.root.clone(), slots: Default::default() };
+    let mut ax = AExec { root: ab.root.clone(), slots: Default::default(), others: vec![] };
     let mut world = World { m: vec![cfg.specs[0].view()], w: Default::default() };
     let ameta = |ax: &mut AExec, p: &str| -> Result<MetaOut, ErrClass> {
         let mut st = PollStats::default();
